@@ -38,23 +38,109 @@ package util
 //@   assigns spv.Buffer
 //@   ensures err == nil
 
+// What the decoders produce: values are *SecureSerializableValue proxies (or absent).
+//@ pred DecodedValue(v *ValueNode) = v != nil && (v.Value == nil || (v.Value is *SecureSerializableValue && v.Value.(*SecureSerializableValue) != nil))
+
 //@ func (*ValueNode).Decode returns (err)
 //@   props C15
 //@   mode wrap
 //@   assigns vn.Value
+//@   ensures err == nil ==> DecodedValue(vn)                                 #decoded-shape
 //@ func (*LeafNode).Decode returns (err)
 //@   props C15
 //@   mode wrap
 //@   assigns ln.Prefix, ln.Path, ln.Value, ln.Value.Value
+//@   ensures err == nil ==> DecodedValue(ln.Value)                           #decoded-shape
 //@ func (*FullNode).Decode returns (err)
 //@   props C15
 //@   mode wrap
 //@   assigns fn.Children, fn.Value, fn.Value.Value
+//@   ensures err == nil ==> DecodedValue(fn.Value)                           #decoded-shape
 //@ func (*ExtensionNode).Decode returns (err)
 //@   props C15
 //@   mode wrap
 //@   assigns en.Path, en.NodeKey
 
 //@ func (*deadNodes).decode returns (err)
+//@   props C15
+//@   mode wrap
+
+// ---- C15: what the decoders accept re-encodes without panicking ----
+
+//@ func (*SecureSerializableValue).MarshalMsg returns (o, err)
+//@   props C15
+//@   mode wrap
+//@   assigns nothing
+//@   ensures err == nil
+
+//@ func GetSerializationPrefix returns (p)
+//@   props C15
+//@   requires node != nil
+//@   assigns nothing
+//@ func writeNodePrefix returns (err)
+//@   props C15
+//@   mode wrap
+//@   requires node != nil && w != nil
+//@   assigns nothing
+
+//@ func (*FullNode).indexToByte returns (c)
+//@   props C15
+//@   mode wrap
+//@   assigns nothing
+//@   ensures idx < 10 ==> c == 48 + idx
+//@   ensures idx >= 10 && idx < 16 ==> c == 87 + idx
+//@ func (*FullNode).index returns (i)
+//@   props C15
+//@   mode wrap
+//@   requires (c >= 48 && c <= 57) || (c >= 97 && c <= 102) || (c >= 65 && c <= 70)      #hex-char
+//@   assigns nothing
+//@   ensures i < 16
+//@ func (*FullNode).GetChild returns (k)
+//@   props C15
+//@   mode wrap
+//@   requires (hex >= 48 && hex <= 57) || (hex >= 97 && hex <= 102) || (hex >= 65 && hex <= 70)      #hex-char
+//@   assigns nothing
+
+//@ func (*ValueNode).GetValueBytes returns (b)
+//@   props C15
+//@   mode wrap
+//@   requires DecodedValue(vn)
+//@   assigns nothing
+//@ func (*ValueNode).Encode returns (b)
+//@   props C15
+//@   mode wrap
+//@   requires DecodedValue(vn)
+//@ func (*LeafNode).encode
+//@   props C15
+//@   mode wrap
+//@   requires buf != nil && DecodedValue(ln.Value)
+//@ func (*LeafNode).Encode returns (b)
+//@   props C15
+//@   mode wrap
+//@   requires DecodedValue(ln.Value)
+//@ func (*LeafNode).GetHashBytes returns (b)
+//@   props C15
+//@   mode wrap
+//@   requires DecodedValue(ln.Value)
+//@ func (*FullNode).encode
+//@   props C15
+//@   mode wrap
+//@   requires buf != nil && DecodedValue(fn.Value)
+//@ func (*FullNode).Encode returns (b)
+//@   props C15
+//@   mode wrap
+//@   requires DecodedValue(fn.Value)
+//@ func (*FullNode).GetHashBytes returns (b)
+//@   props C15
+//@   mode wrap
+//@   requires DecodedValue(fn.Value)
+//@ func (*ExtensionNode).encode
+//@   props C15
+//@   mode wrap
+//@   requires buf != nil
+//@ func (*ExtensionNode).Encode returns (b)
+//@   props C15
+//@   mode wrap
+//@ func (*ExtensionNode).GetHashBytes returns (b)
 //@   props C15
 //@   mode wrap
